@@ -11,10 +11,11 @@ for f in sorted(glob.glob(os.path.join(ROOT, "tools", "manifest_texts.d", "*.jso
     texts.update(json.load(open(f)))
 props = [json.loads(l) for l in open(os.path.join(ROOT, "properties.jsonl")) if l.strip()]
 checks, na = [], []
+claimed = set(open(os.path.join(ROOT, "tools", "claimed.txt")).read().split())
 for p in props:
     pid = p["id"]
     t = texts.get(pid, {})
-    if pid in budgets and not t.get("not_applicable"):
+    if pid in budgets and pid in claimed and not t.get("not_applicable"):
         checks.append({
             "property_id": pid,
             "quick_cmd": "./check %s quick" % pid,
